@@ -49,7 +49,9 @@ static bytes hexb(const std::string& s) {
     return b;
 }
 
-struct TypedData { unsigned type; bytes data; };
+// an item `~type.hex` is transient: it is added in its place like the others and removed again (remove_option(type)) once the
+// whole list has been added — the final option list is the one without it, reached through an add / remove history
+struct TypedData { unsigned type; bytes data; bool transient; };
 
 static std::vector<TypedData> typed_list(const std::string& s) {
     std::vector<TypedData> out;
@@ -58,7 +60,8 @@ static std::vector<TypedData> typed_list(const std::string& s) {
         auto p = split(item, '.');
         if (p.size() != 2) throw std::runtime_error("bad typed item");
         TypedData t;
-        t.type = unsigned(num(p[0]));
+        t.transient = !p[0].empty() && p[0][0] == '~';
+        t.type = unsigned(num(t.transient ? p[0].substr(1) : p[0]));
         t.data = p[1].empty() ? bytes() : hexb(p[1]);
         out.push_back(t);
     }
@@ -114,6 +117,9 @@ static PDU* build_layer(const LayerSpec& L) {
             IP::option_identifier id(uint8_t(o.type));
             p->add_option(IP::option(id, o.data.begin(), o.data.end()));
         }
+        for (auto& o : typed_list(w.at(9))) {
+            if (o.transient) p->remove_option(IP::option_identifier(uint8_t(o.type)));
+        }
         return p;
     }
     if (k == "ip6") {
@@ -136,6 +142,9 @@ static PDU* build_layer(const LayerSpec& L) {
         p->urg_ptr(uint16_t(num(w.at(7))));
         for (auto& o : typed_list(w.at(8))) {
             p->add_option(TCP::option(TCP::OptionTypes(o.type), o.data.begin(), o.data.end()));
+        }
+        for (auto& o : typed_list(w.at(8))) {
+            if (o.transient) p->remove_option(TCP::OptionTypes(o.type));
         }
         return p;
     }
